@@ -1,5 +1,6 @@
 import PewDriver.Util
 import PewModel.Cli
+import Std.Data.HashMap
 open Lean
 namespace PewDriver.C20
 open PewDriver Pew.Cli
@@ -48,6 +49,17 @@ def pxOf (w : Nat) (fs : List (String × Array Tok)) : Nat → Nat → Px := fun
   | some a => a.getD (i * w + j) 0
   | none => 0
 
+def calibOf (names : List String) (cs : List Tok) : String → Tok := fun n =>
+  match (names.zip cs).lookup n with
+  | some c => c
+  | none => 0
+
+/-- the storage types of the fields a call returned (float64 for every name it does not list) -/
+def typesOf (names : List String) (ts : List String) : String → DType := fun n =>
+  match (names.zip ts).lookup n with
+  | some t => t
+  | none => "<f8"
+
 /-- one library call the harness made for a path: which, how it ended, and what it returned -/
 def parseLoader (j : Json) : R Loader := do
   match ← getStr j "loader" with
@@ -77,7 +89,8 @@ def parseOutcomeWith {α} (j : Json) (ok : R α) : R (Outcome α) := do
 structure CallX where
   loader : Loader
   loaded : Outcome Loaded
-  laser : Outcome Laser      -- for `io.npz.load`: the image with its stored configuration
+  laser : Outcome Laser      -- for `io.npz.load`: the image with its stored configuration and calibrations
+  types : String → DType     -- storage type of every field of the array the call returned
 
 def parseCall (j : Json) : R CallX := do
   let ld ← parseLoader j
@@ -96,12 +109,23 @@ def parseCall (j : Json) : R CallX := do
     | .npz => parseOutcomeWith j (do
         let (h, w, fs) ← body
         let c ← fld j "config" >>= parseCfg
-        pure ({ elements := fs.map (·.1), data := { h := h, w := w, get := pxOf w fs }, config := c } : Laser))
+        let cal ← getList asInt j "calib"
+        if cal.length ≠ fs.length then throw "calib: one token per field expected"
+        pure ({ elements := fs.map (·.1), data := { h := h, w := w, get := pxOf w fs }, config := c,
+                calib := calibOf (fs.map (·.1)) cal } : Laser))
     | _ => pure .otherError
-  pure { loader := ld, loaded := loaded, laser := laser }
+  let types ← match fldOpt j "outcome" with
+    | some (.str "ok") => do
+      let (_, _, fs) ← body
+      let ts ← getList asStr j "dtypes"
+      if ts.length ≠ fs.length then throw "dtypes: one name per field expected"
+      pure (typesOf (fs.map (·.1)) ts)
+    | _ => pure (fun _ => "<f8")
+  pure { loader := ld, loaded := loaded, laser := laser, types := types }
 
-/-- the facts about a path (no library loader has been called yet when `calls` is empty) -/
-def parseSource (j : Json) : R Source := do
+/-- the facts about a path (no library loader has been called yet when `calls` is empty), and the
+storage types of the array each call returned -/
+def parseSourceX (j : Json) : R (Source × (Loader → String → DType)) := do
   let path ← fld j "path" >>= parsePath
   let sniff ← fld j "sniff" >>= fun sj => parseOutcomeWith sj (getStr sj "format")
   let calls ← getList parseCall j "calls"
@@ -114,9 +138,44 @@ def parseSource (j : Json) : R Source := do
     match calls.find? (fun c => c.loader == Loader.npz) with
     | some c => c.laser
     | none => .otherError
-  pure { path := path, present := ← getBool j "exists", isDir := ← getBool j "is_dir",
-         perkinValid := ← getBool j "perkin_valid", csvValid := ← getBool j "csv_valid",
-         sniff := sniff, info := ← (fld j "info" >>= fun ij => parseOutcomeWith ij (pure ())), call := call, npz := npz }
+  let types : Loader → String → DType := fun ld =>
+    match calls.find? (fun c => c.loader == ld) with
+    | some c => c.types
+    | none => fun _ => "<f8"
+  pure ({ path := path, present := ← getBool j "exists", isDir := ← getBool j "is_dir",
+          perkinValid := ← getBool j "perkin_valid", csvValid := ← getBool j "csv_valid",
+          sniff := sniff, info := ← (fld j "info" >>= fun ij => parseOutcomeWith ij (pure ())), call := call, npz := npz },
+        types)
+
+def parseSource (j : Json) : R Source := do pure (← parseSourceX j).1
+
+/-- NumPy's conversions as tables: `casts` keyed by (type, value), `promote` keyed by the list of types; float64 holds
+every value; an entry the harness did not send gives the value -2 / the type "?" (visible as a difference) -/
+def parseCasting (req : Json) : R Casting := do
+  let cs ← getList (fun j => do pure ((← getStr j "type", ← getInt j "src"), ← getInt j "dst")) req "casts"
+  let ps ← getList (fun j => do pure (← getList asStr j "types", ← getStr j "result")) req "promote"
+  let tbl : Std.HashMap (String × Int) Int := Std.HashMap.ofList cs
+  pure { cast := fun t v => if t == "<f8" then v else (tbl.get? (t, v)).getD (-2),
+         promote := fun ts => if ts.all (· == "<f8") then "<f8" else (ps.lookup ts).getD "?" }
+
+/-- `TypesHold` decided on the elements and the pixels inside the images (a name no image has is a float64 field of
+zeros: nothing to check) -/
+def typesHold (C : Casting) (ty : Nat → String → DType) (a : Args) : Bool :=
+  let ins := enum a.inputs
+  match a.cmd with
+  | .convert _ _ => true
+  | .filter f _ =>
+    ins.all fun (k, i) => i.laser.elements.all fun n =>
+      let g := f k n (i.laser.field n)
+      (List.range i.laser.data.h).all fun r => (List.range i.laser.data.w).all fun c =>
+        C.cast (ty k n) (g.get r c) == g.get r c
+  | .stack _ pad =>
+    let names := (a.inputs.flatMap (·.laser.elements)).eraseDups
+    ins.all (fun (k, _) => names.all fun n => C.cast (ty k n) pad == pad) &&
+    names.all (fun n => C.cast (promotedType C ty a.inputs.length n) pad == pad) &&
+    ins.all fun (_, i) => names.all fun n =>
+      (List.range i.laser.data.h).all fun r => (List.range i.laser.data.w).all fun c =>
+        C.cast (promotedType C ty a.inputs.length n) (i.laser.data.get r c n) == i.laser.data.get r c n
 
 /-- the library filter as a table keyed by the CONTENT of the grid it is handed (shape and every
 token): a grid that is not one of the fields the harness filtered gives a grid of `-1` -/
@@ -160,7 +219,7 @@ def jFile (f : File) : Json :=
     jObj [("path", jPath f.path), ("kind", jStr "npz"), ("elements", jList jStr l.elements),
           ("shape", jList jNat [l.data.h, l.data.w]),
           ("data", jList (fun e => jGrid (l.field e)) l.elements),
-          ("config", jCfg l.config)]
+          ("config", jCfg l.config), ("calib", jList (fun e => jInt (l.calib e)) l.elements)]
   | .csv g =>
     jObj [("path", jPath f.path), ("kind", jStr "csv"), ("shape", jList jNat [g.h, g.w]), ("data", jGrid g)]
   | .vtk l =>
@@ -169,14 +228,18 @@ def jFile (f : File) : Json :=
           ("data", jList (fun e => jGrid (l.field e)) l.elements),
           ("config", jCfg l.config)]
 
+/-- the files on disk afterwards (`finalFiles`: a later file replaces an earlier one at the same path), and how many
+were written -/
 def jResult (r : Result) : Json :=
-  jObj [("status", jStr (if r.status = .ok then "ok" else "error")), ("files", jList jFile r.files)]
+  jObj [("status", jStr (if r.status = .ok then "ok" else "error")), ("files", jList jFile (finalFiles r.files)),
+        ("written", jNat r.files.length)]
 
 /-- the image `load` returns for a path (or how it fails) -/
 def jLoadFull : Except Fail (Loader × Laser) → Json
   | .ok x =>
     jObj [("loader", jLoader x.1), ("elements", jList jStr x.2.elements), ("shape", jList jNat [x.2.data.h, x.2.data.w]),
-          ("data", jList (fun e => jGrid (x.2.field e)) x.2.elements), ("config", jCfg x.2.config)]
+          ("data", jList (fun e => jGrid (x.2.field e)) x.2.elements), ("config", jCfg x.2.config),
+          ("calib", jList (fun e => jInt (x.2.calib e)) x.2.elements)]
   | .error .usage => jObj [("fail", jStr "usage")]
   | .error .crash => jObj [("fail", jStr "crash")]
 
@@ -196,7 +259,15 @@ def handle (op : String) (req : Json) : R Json := do
     let defaults ← match ← getList asInt req "defaults" with
       | [a, b, c] => pure (a, b, c)
       | _ => throw "defaults: three tokens expected"
-    let srcs ← getList parseSource req "sources"
+    let srcxs ← getList parseSourceX req "sources"
+    let srcs := srcxs.map (·.1)
+    let casting ← parseCasting req
+    -- the field types of the image `load` (the mechanism) delivers for argument k
+    let tys : List (String → DType) := srcxs.map fun (s, t) =>
+      match loadMech defaults s with
+      | .ok (ld, _) => t ld
+      | .error _ => fun _ => "<f8"
+    let ty : Nat → String → DType := fun k => tys.getD k (fun _ => "<f8")
     let format ← getStr req "format"
     let output ← fld req "output" >>= asOpt parsePath
     let outIsDir ← getBool req "output_is_dir"
@@ -219,7 +290,13 @@ def handle (op : String) (req : Json) : R Json := do
       | _ => throw s!"bad cmd {cmdName}"
     let c : CmdLine := { cmd := cmd, calibrate := ← getBool req "calibrate", sources := srcs, format := format,
                          output := output, isDir := isDir, defaults := defaults }
-    pure (jObj [("model", jResult (mainRun c)), ("spec", jResult (specMain c)),
+    let holds : Bool :=
+      if c.sources.any (fun s => !s.present) || c.calibrate then true
+      else match c.sources.mapM (loadSpec c.defaults) with
+        | .ok ls => typesHold casting ty (c.args ls)
+        | .error _ => true
+    pure (jObj [("model", jResult (mainRunT casting ty c)), ("spec", jResult (specMain c)),
+                ("types_hold", jBool holds),
                 ("model_loaders", jList (fun s => jLoad (loadMech defaults s)) srcs),
                 ("spec_loaders", jList (fun s => jLoad (loadSpec defaults s)) srcs),
                 ("model_loads", jList (fun s => jLoadFull (loadMech defaults s)) srcs),
